@@ -85,6 +85,90 @@ theorem load_loads (w : World) (t : Nat) (ht : t < w.conts.length) : ((w.load t)
   rw [get_put]
   simp [ht, deepen_shallow]
 
+/-- loading twice is loading once -/
+theorem load_load (w : World) (t : Nat) : (w.load t).load t = w.load t := by
+  by_cases ht : t < w.conts.length
+  · have hget : (w.load t).get t = deepen (w.get t) := by
+      unfold World.load; rw [get_put]; simp [ht]
+    have : (w.load t).load t = (w.load t).put t (deepen (w.get t)) := by
+      show (w.load t).put t (deepen ((w.load t).get t)) = _
+      rw [hget, deepen_of_loaded (deepen_shallow _)]
+    rw [this]
+    unfold World.load World.put
+    simp [List.set_set]
+  · have h1 : w.load t = w := by
+      unfold World.load World.put
+      simp [List.set_eq_of_length_le (Nat.le_of_not_lt ht)]
+    rw [h1, h1]
+
+/-- an operation that looks at the contours of glyph `t` before anything else does exactly the same on the
+world in which glyph `t` was loaded beforehand -/
+theorem step_load_eq (w : World) (op : Op) (t : Nat) (h : Op.looksFirst op = some t) :
+    step (w.load t) op = step w op := by
+  cases op <;> simp only [Op.looksFirst, Option.some.injEq] at h <;> try (exact absurd h (by simp))
+  all_goals
+    subst h
+    simp only [step, preload, load_load]
+
+/-! ### `clearContours` removes every contour and frees what the contours carried -/
+
+theorem frame_removeContour (g : Glyph) (ci : Nat) :
+    (removeContour g ci).1.comps = g.comps ∧ (removeContour g ci).1.anchors = g.anchors ∧
+    (removeContour g ci).1.guides = g.guides ∧ (removeContour g ci).1.shallow = g.shallow := by
+  unfold removeContour
+  split
+  · exact ⟨rfl, rfl, rfl, rfl⟩
+  · split <;> exact ⟨rfl, rfl, rfl, rfl⟩
+
+theorem frame_clearContours (n : Nat) (g : Glyph) :
+    (clearContours n g).1.comps = g.comps ∧ (clearContours n g).1.anchors = g.anchors ∧
+    (clearContours n g).1.guides = g.guides ∧ (clearContours n g).1.shallow = g.shallow := by
+  induction n generalizing g with
+  | zero => exact ⟨rfl, rfl, rfl, rfl⟩
+  | succ n ih =>
+    unfold clearContours
+    have h1 := frame_removeContour g n
+    split
+    · rename_i g1 c heq
+      rw [heq] at h1
+      have h2 := ih g1
+      exact ⟨h2.1.trans h1.1, h2.2.1.trans h1.2.1, h2.2.2.1.trans h1.2.2.1, h2.2.2.2.trans h1.2.2.2⟩
+    · rename_i g1 res o _ heq
+      rw [heq] at h1
+      exact h1
+
+/-- under the invariant `for contour in reversed(self): self.removeContour(contour)` never stops early -/
+theorem clearContours_all {g : Glyph} (h : Inv g) (n : Nat) (hn : n ≤ g.contours.length) :
+    (clearContours n g).1.contours.length = g.contours.length - n ∧ (clearContours n g).2.1 = .ok := by
+  induction n generalizing g with
+  | zero => exact ⟨rfl, rfl⟩
+  | succ n ih =>
+    have hlt : n < g.contours.length := hn
+    have hc : g.contours[n]? = some g.contours[n] := List.getElem?_eq_getElem hlt
+    have hcnt : ∀ x, ({ g with contours := g.contours.eraseIdx n } : Glyph).cnt x + (g.contours[n]).ids.count x
+        = g.cnt x := by
+      intro x
+      have := cntCs_eraseIdx x g.contours n _ hc
+      rw [Contour.cnt_eq_count] at this
+      simp only [Glyph.cnt] at this ⊢
+      omega
+    obtain ⟨r, hr, he⟩ := h.ex.freeAll (g.contours[n]).ids hcnt
+    have hrm : removeContour g n
+        = ({ g with reg := r, contours := g.contours.eraseIdx n }, .ok, some g.contours[n]) := by
+      simp [removeContour, hc, hr]
+    have hinv : Inv ({ g with reg := r, contours := g.contours.eraseIdx n } : Glyph) := Ex.inv he
+    have hlen : ({ g with reg := r, contours := g.contours.eraseIdx n } : Glyph).contours.length
+        = g.contours.length - 1 := by
+      simp [List.length_eraseIdx, hlt]
+    have h2 := ih hinv (by rw [hlen]; omega)
+    unfold clearContours
+    rw [hrm]
+    refine ⟨?_, h2.2⟩
+    have := h2.1
+    rw [hlen] at this
+    simp only at this ⊢
+    omega
+
 /-! ### rejected and refused calls, on the preloaded world -/
 
 theorem insertContour_reject_unchanged' (g : Glyph) (idx : Nat) (c : Contour)
